@@ -97,8 +97,8 @@ class Prover:
             src = self.an.vtype.get(v[3])
             dst = self.an.vtype.get(v)
             sb, db = tk_bits(src), tk_bits(dst)
-            if sb is not None and db is not None and tk_unsigned(src) and db >= sb:
-                return self.lin(v[3])
+            if sb is not None and db is not None and tk_unsigned(src) and (db > sb or (db == sb and tk_unsigned(dst))):
+                return self.lin(v[3])       # value-preserving (a same-width cast to a signed type is not)
         if t == "call" and getattr(self, "engine", None) is not None and self.engine.is_local(v[1]):
             rl = self.engine.retlin(self.engine.F.fns[v[1]])
             if rl is not None and rl[0] == 0 and len(rl[1]) == 1 and rl[1][0][1] == 1 and rl[1][0][0][0] == "PT":
